@@ -15,25 +15,13 @@ Theorem C14_yaml_plain_ok_decided : forall s, yaml_plain_okb s = true <-> yaml_p
 Proof. exact p_yaml_plain_okb. Qed.
 Print Assumptions C14_yaml_plain_ok_decided.
 
-(** bare_safe is sound for EVERY byte string outside the two known classes: what it lets through
-    unquoted is a plain scalar that no YAML 1.2 core-schema and no YAML 1.1 resolver (bool, null,
-    int incl. binary/octal/hex/sexagesimal, float, timestamp, merge, value) reads as a non-string. *)
-Theorem C14_yaml_bare_sound :
-  forall s, bare_safe s = true -> known_yaml_bare s = false -> yaml_plain_ok s.
+(** bare_safe is sound for EVERY byte string: what it lets through unquoted is a plain scalar that
+    is not a document marker and that no YAML 1.2 core-schema and no YAML 1.1 resolver (bool, null,
+    int incl. binary/octal/hex/sexagesimal, float, timestamp, merge, value) reads as a non-string.
+    (Until /repo 84b9e77 and 5a5f603 this was refuted at `0o7` and `...`.) *)
+Theorem C14_yaml_bare_sound : forall s, bare_safe s = true -> yaml_plain_ok s.
 Proof. exact p_yaml_bare_sound. Qed.
 Print Assumptions C14_yaml_bare_sound.
-
-(** FINDING: YAML 1.2 octal integers `0o[0-7]+` are emitted unquoted. *)
-Theorem C14_yaml_bare_refuted_octal :
-  exists s, bare_safe s = true /\ lang re_oct12 s /\ ~ yaml_plain_ok s.
-Proof. exact p_yaml_bare_refuted_octal. Qed.
-Print Assumptions C14_yaml_bare_refuted_octal.
-
-(** FINDING: the document-end marker `...` is emitted unquoted. *)
-Theorem C14_yaml_bare_refuted_document_end :
-  exists s, bare_safe s = true /\ doc_marker s = true /\ ~ yaml_plain_ok s.
-Proof. exact p_yaml_bare_refuted_docend. Qed.
-Print Assumptions C14_yaml_bare_refuted_document_end.
 
 (** A JSON-escaped key or string is a YAML double-quoted scalar for the same bytes. *)
 Theorem C14_yaml_quoted_ok : forall bs, Forall (fun b => b < 256) bs ->
@@ -41,31 +29,22 @@ Theorem C14_yaml_quoted_ok : forall bs, Forall (fun b => b < 256) bs ->
 Proof. exact p_yaml_quoted_ok. Qed.
 Print Assumptions C14_yaml_quoted_ok.
 
-(** TOML keys: what bare_allowed accepts is a TOML unquoted key, except the empty key. *)
-Theorem C14_toml_bare_sound : forall s, bare_allowed s = true -> s <> [] -> toml_bare_key s.
+(** TOML keys: bare_allowed accepts exactly the TOML unquoted keys (the empty key is quoted since
+    /repo 77d920f). *)
+Theorem C14_toml_bare_sound : forall s, bare_allowed s = true -> toml_bare_key s.
 Proof. exact p_toml_bare_sound. Qed.
 Print Assumptions C14_toml_bare_sound.
-
-(** FINDING: the empty key is emitted bare (` = 1`), which is not TOML. *)
-Theorem C14_toml_bare_refuted : exists s, bare_allowed s = true /\ ~ toml_bare_key s.
-Proof. exact p_toml_bare_refuted. Qed.
-Print Assumptions C14_toml_bare_refuted.
 
 Theorem C14_toml_bare_complete : forall s, toml_bare_key s -> bare_allowed s = true.
 Proof. exact p_toml_bare_complete. Qed.
 Print Assumptions C14_toml_bare_complete.
 
-(** A JSON-escaped key or string is a TOML basic string for the same bytes, for every byte string
-    without U+007F (the table condition is re-decided over all 256 ESCAPE entries). *)
-Theorem C14_toml_quoted_ok : forall bs, Forall (fun b => b < 256 /\ b <> 127) bs ->
-  exists out, escape bs = Some out /\ dq_read toml_dialect out = Some bs.
+(** What escape_string_toml_buf writes (JSON escaping, then U+007F replaced by its \u escape; the
+    replaced character and the replacement are read from the source) is a TOML basic string for the
+    same bytes, for EVERY byte string (table conditions re-decided over all 256 ESCAPE entries). *)
+Theorem C14_toml_quoted_ok : forall bs, Forall (fun b => b < 256) bs -> dq_read toml_dialect (tesc bs) = Some bs.
 Proof. exact p_toml_quoted_ok. Qed.
 Print Assumptions C14_toml_quoted_ok.
-
-(** FINDING: U+007F is left raw, which a TOML basic string must not contain. *)
-Theorem C14_toml_quoted_refuted : exists bs out, escape bs = Some out /\ dq_read toml_dialect out = None.
-Proof. exact p_toml_quoted_refuted. Qed.
-Print Assumptions C14_toml_quoted_refuted.
 
 (** JSON escaping of s is a Python 3 string literal for s. *)
 Theorem C14_python_literal : forall bs, Forall (fun b => b < 256) bs ->
